@@ -168,7 +168,7 @@ C["C10"]["assumptions"] += ["no-starvation clause: torrent fixture (real newTorr
 C["C13"]["harnesses"] += [
     H("ZZMetadataSizeCap", "torrent", "magnet torrent, extension handshake with an arbitrary 64-bit announced metadata size (maximum configured to 3 blocks): a fetch starts only for a positive size within the maximum from a peer offering ut_metadata; buffer == announced size", T(45, 900, flags=["-nospawn"]), T(45, 900, flags=["-nospawn"]), replay="model"),
 ]
-C["C13"]["assumptions"] += ["torrent fixture (real newTorrent/startPeer, recorders for the peer writer)", "the adopt-only-if-hash-matches step and the magnet text round trip are not covered"]
+C["C13"]["assumptions"] += ["torrent fixture (real newTorrent/startPeer, recorders for the peer writer)", "info dictionary parser replaced by parses-or-not in the adoption harness; the magnet text round trip is not covered"]
 C["C15"]["harnesses"] += [
     H("ZZAnnouncerEvents", "internal/announcer", "real PeriodicalAnnouncer.Run + announce goroutines against a tracker whose two replies are arbitrary (ok with any 32-bit interval/min-interval in seconds incl. zero and negative, failure with any retry-in, undecodable), completion signal before / during / never: first event 'started', 'completed' at most once and never when complete at start, timer never armed sooner than min(tracker's positive interval, effective minimum interval) / retry-in / back-off, HasAnnounced iff an announce was accepted", T(45, 1800, 8, 6), T(45, 1800, 8, 6), replay="model"),
 ]
@@ -184,8 +184,8 @@ C["C18"]["harnesses"] += [
     DIAL,
     H("ZZDialAdmission5", "torrent", "5 events", None, T(40, 7000, 32, 8, flags=["-nospawn"]), replay="model"),
     H("ZZAddrListFilter", "internal/addrlist", "one Push of an arbitrary address (any 4 IP bytes, any 16-bit port) with the blocklist 10.0.1.0/24, listening port 6881, client address 10.0.0.9: stored iff port != 0, not loopback:6881, not the client's address, not blocked (real blocklist loader + segment tree)", T(40, 600), T(40, 600)),
-    H("ZZAddrListSeq", "internal/addrlist", "every sequence of 4 Push (one of 3 admissible addresses, arbitrary possibly colliding priorities, symbolic non-decreasing clock) / Pop operations on the real AddrList (real google/btree) bounded to 1..2: never more than the maximum stored, representation consistent (indexes, sizes, no panic), per-source counts exact, Pop returns and removes exactly the stored address of highest priority", T(40, 1800, 6, 6), T(40, 1800, 6, 6)),
-    H("ZZAddrListSeq5", "internal/addrlist", "5 operations, bound 1..3", None, T(40, 7000, 32, 8)),
+    H("ZZAddrListSeq", "internal/addrlist", "every sequence of 4 Push (one of 3 admissible addresses, arbitrary possibly colliding priorities, symbolic non-decreasing clock) / Pop operations on the real AddrList (real google/btree) bounded to 1..2: never more than the maximum stored, representation consistent (indexes, sizes, no panic), per-source counts exact, Pop returns and removes exactly the stored address of highest priority", T(40, 1800, 6, 6), T(40, 1800, 6, 6), replay="model"),
+    H("ZZAddrListSeq5", "internal/addrlist", "5 operations, bound 1..3", None, T(40, 7000, 32, 8), replay="model"),
     H("ZZLoadConcrete", "internal/blocklist", "real loader (bufio scanner, net.ParseCIDR) on a concrete list with a comment, one rule and a blank line: one rule; 10.0.1.x blocked for every x, 10.0.0.x and 10.0.2.x not", T(60, 600), T(60, 600)),
 ]
 C["C18"]["assumptions"] += ["peer priority (CRC32-C of the address pair) replaced by an arbitrary function of the address (addrlist harness) / an injective concrete function (dial harness)", "torrent fixture for dial admission: real newTorrent/handlers, handshaker goroutines not run (their results are events)", "announce-to-blocked-tracker (resolver) not covered", "package unique modelled by an engine-side interning table"]
@@ -195,6 +195,12 @@ C["C17"]["harnesses"] += [
     H("ZZWriterQueueCap", "internal/peerconn/peerwriter", "real PeerWriter.Run + message writer on a connection that takes a frame only when the harness lets it; every sequence of 5 operations (queue an upload, cancel a queued / written / never-made request, choke, connection takes a frame) with a limit of 1..2 queued requests, fast extension on/off: queued piece messages <= limit, the writer's counter == piece messages actually queued (never negative)", T(45, 1800, 4, 6), T(45, 1800, 4, 6)),
     H("ZZWriterQueueCap6", "internal/peerconn/peerwriter", "6 operations", None, T(45, 7000, 32, 8)),
 ]
+
+C["C13"]["harnesses"] += [
+    H("ZZMetadataAdopt", "torrent", "magnet torrent, two peers offering ut_metadata (2 blocks); every sequence of 4 metadata messages from either peer - data with piece index 0..2, arbitrary content, length full block / last block / wrong, or reject; duplicates included - : metadata is adopted only if its SHA-1 (uninterpreted function: both outcomes explored for any content) equals the link's info-hash; the adopted bytes are not modified by later messages; no metadata download stays registered after adoption; parse failure stops cleanly", T(40, 1800, 6, 6, flags=["-nospawn"]), T(40, 1800, 6, 6, flags=["-nospawn"]), replay="model"),
+    H("ZZMetadataAdopt5", "torrent", "5 messages", None, T(40, 7000, 32, 8, flags=["-nospawn"]), replay="model"),
+]
+C["C01"]["harnesses"] += [h for h in C["C05"]["harnesses"] if h["fn"] == "ZZCrashOrder"]
 
 C["C12"]["harnesses"] += [
     H("ZZTwoParty", "internal/mse", "real HandshakeOutgoing and HandshakeIncoming as two goroutines over an in-memory pipe (whole or byte-by-byte transport), same key, each of the four pads 0..1 bytes, initial payload 0 or 2 bytes, offer {plain, rc4, both}, responder selecting none / plaintext / rc4 / an invalid value: fails on both sides or both agree on one offered cipher; initial payload and a message in each direction are read unchanged", T(120, 900, 4, 5), T(120, 900, 4, 5), replay="model"),
